@@ -186,6 +186,19 @@ func (c *Content) Bytes() []byte {
 				copy(b[off:off+l], b[o2:o2+l])
 				copy(b[o2:o2+l], tmp)
 			}
+		case "wcoll":
+			// keep the rolling (weak) checksum of any block containing
+			// [off,off+3) unchanged while changing the content: +1,-2,+1
+			if off+3 <= n {
+				b[off]++
+				b[off+1] -= 2
+				b[off+2]++
+			}
+		case "dup":
+			// copy Len bytes from Off2 to Off (duplicated block)
+			if e.Off2+e.Len <= n && off+e.Len <= n {
+				copy(b[off:off+e.Len], append([]byte(nil), b[e.Off2:e.Off2+e.Len]...))
+			}
 		case "trunc":
 			b = b[:off]
 		case "app":
